@@ -13,6 +13,23 @@ from . import tlc
 from .common import VERIF
 
 
+QUICK_TESTS = ['tests/grammar/syntax_test.py', 'tests/grammar/join_test.py', 'tests/grammar/left_recursion_test.py',
+               'tests/grammar/keyword_test.py', 'tests/grammar/semantics_test.py', 'tests/syntax']
+
+
+def suite_part(ck, tier, backend, label):
+    """Validate the parses the repository's own tests perform: backend 'model' = parses by the model interpreter (any grammar),
+    'gen' = parses by the checked-in bootstrap parser, validated against PegMachine instantiated with tatsu/_tatsu.ebnf."""
+    from .pegcheck import validate_records
+    recs, skips = record_suite(QUICK_TESTS if tier == 'quick' else ['tests'])
+    mine = [r for r in recs if r['cfg'].get('backend', 'model') == backend]
+    ck.notes[f'{label}_recorded'] = len(mine)
+    ck.notes[f'{label}_skipped_unsupported'] = dict(skips)
+    if len(mine) < 20:
+        raise tlc.MachineryError(f'only {len(mine)} {backend} parses were recorded from the test-suite: the recorder plugin is not binding')
+    return validate_records(ck, mine, label=label, corrupt_selftest=False)
+
+
 def record_suite(paths, timeout=1500):
     """-> (records, skip counter).  The tests run from the repository root of the tatsu package that is importable (PYTHONPATH first)."""
     import tatsu
@@ -35,3 +52,35 @@ def record_suite(paths, timeout=1500):
         return recs, skips
     finally:
         shutil.rmtree(d, ignore_errors=True)
+
+
+def record_boot_case(case):
+    """{'texts': [grammar texts]} -> trace records of the checked-in bootstrap parser parsing each text (worker process)."""
+    import tempfile
+    os.environ['TATSU_VERIF'] = '1'
+    fd, out = tempfile.mkstemp(prefix='boot-', suffix='.jsonl', dir=tlc.scratch_dir('boot'))
+    os.close(fd)
+    os.environ['VERIF_TRACE_OUT'] = out
+    try:
+        import tatsu
+        from .impl import clear_caches
+        from . import trace_plugin
+        trace_plugin.install()
+        for k, text in enumerate(case['texts']):
+            clear_caches()
+            os.environ['PYTEST_CURRENT_TEST'] = f"{case.get('label', 'corpus')}[{case.get('offset', 0) + k}]"
+            try:
+                tatsu.compile(text)
+            except Exception:  # noqa: BLE001   (rejected texts leave a failing trace, which is validated like any other)
+                pass
+        recs = []
+        for ln in open(out):
+            r = json.loads(ln)
+            if 'skip' not in r and r['cfg'].get('backend') == 'gen':
+                recs.append(r)
+            elif 'skip' in r:
+                recs.append({'skip': r['skip']})
+        return recs
+    finally:
+        os.environ.pop('VERIF_TRACE_OUT', None)
+        shutil.rmtree(os.path.dirname(out), ignore_errors=True)
